@@ -19,6 +19,7 @@ from .rules import rg as RG
 from .rules import r2 as R2
 from .rules import r3 as R3
 from .rules import c09 as C9
+from .rules import r4 as R4
 
 TRUST = ('trusted: the CPython parser (ast), the callee resolver of sa/model.py (receiver roles, '
          'unique method names), Python list/str/re semantics as encoded in the rules; ')
@@ -65,7 +66,7 @@ prop('C02',
      'DESIGN.md 3.1, 4 C02')
 
 prop('C03',
-     [MI.dt1, MI.ex2, MI.df1, PD.pd5, ST.ls2p, ST.at1, ST.ex1, RG.rg1, RG.rg2, R2.at2, SC.sc5, R3.rs1],
+     [MI.dt1, MI.ex2, MI.df1, PD.pd5, ST.ls2p, ST.at1, ST.ex1, RG.rg1, RG.rg2, R2.at2, SC.sc5, R3.rs1, R4.exw, R4.um1, R4.nm1],
      'no markup class reaches the default emit and comments are dropped (DT1); an argument '
      'handed back for expansion is not expanded a second time by its handler (EX2: no '
      'duplicated footnotes); text of definition files never reaches the output, including '
@@ -120,7 +121,7 @@ prop('C06',
      'DESIGN.md 3.8 (SP1-SP3), 3.6 (IX4), 4 C06')
 
 prop('C07',
-     [SC.pd6, T.ix4, ST.at1, RG.ix1, RG.ix2a, MO.ix2s, MO.ix6, MO.ix7, MO.ix8, MO.ix9, MO.ix10, MO.pg1, MI.tx1, R3.sp5, R3.ix11, R3.ix12, R3.ix13, R3.ix15],
+     [SC.pd6, T.ix4, ST.at1, RG.ix1, RG.ix2a, MO.ix2s, MO.ix6, MO.ix7, MO.ix8, MO.ix9, MO.ix10, MO.pg1, MI.tx1, R3.sp5, R3.ix11, R3.ix12, R3.ix13, R3.ix15, R4.ix16, MO.ml2],
      'progress of the scanner on every path (PD6: the scan position strictly increases, with '
      'bounds of next()/find() results), well-formed tables (IX4)',
      'decides termination of the scanner and table well-formedness; further index-safety rules '
@@ -131,7 +132,7 @@ prop('C07',
      'DESIGN.md 3.6, 4 C07')
 
 prop('C08',
-     [EM.em1, EM.em2, EM.em3, R2.em4, AB.ab1, OK.ok1, SC.sc5, R3.rs1],
+     [EM.em1, EM.em2, EM.em3, R2.em4, AB.ab1, OK.ok1, SC.sc5, R3.rs1, R4.em5],
      'the mark is used whole (EM1), is produced only together with a diagnostic (EM2), and '
      'recovery pushes the consumed tokens back (EM3)',
      'decides the structural clauses "complete mark", "never a mark without diagnostic", '
@@ -143,7 +144,7 @@ prop('C08',
      'DESIGN.md 3.7, 4 C08')
 
 prop('C09',
-     [C9.sb1, C9.sb2, C9.sb3, C9.sb4, C9.sb5, ST.pd7, PD.pd5, MI.df1, MO.ix6, R3.ix12, MI.uk, R3.rs1],
+     [C9.sb1, C9.sb2, C9.sb3, C9.sb4, C9.sb5, ST.pd7, PD.pd5, MI.df1, MO.ix6, R3.ix12, MI.uk, R3.rs1, R4.sc8, R4.sb2b, ST.at1, R2.at2, R4.um1, R4.en1, R4.exw],
      'structural clauses only: the substitution loop replaces #k by the complete k-th argument and '
      'copies every other body token once, in order (SB1); one argument per code, defaults at the '
      'index of the code (SB2); \\newcommand / \\def register unconditionally under the literal name '
@@ -165,7 +166,7 @@ prop('C09',
      'DESIGN.md 3.8, 4 C09')
 
 prop('C10',
-     [MT.mt1, MT.mt2, MT.mt5, R2.mt6, R2.mt7, R2.mt8, MI.ex2, MI.lc1, PS.ps3, T.mt4, PD.pd1, R3.ix14, MO.ml2, R3.tk1],
+     [MT.mt1, MT.mt2, MT.mt5, R2.mt6, R2.mt7, R2.mt8, MI.ex2, MI.lc1, PS.ps3, T.mt4, PD.pd1, R3.ix14, MO.ml2, R3.tk1, PD.pd5, R4.sh1, R4.nm1],
      'rotation state: an argument is expanded once (EX2: formulas inside handler arguments '
      'consume one placeholder), collections are per language and looked up at the time of use '
      '(LC1), punctuation entries are single characters (MT4), generated tokens pinned (PD1)',
@@ -181,7 +182,7 @@ prop('C10',
      'DESIGN.md 3.8 (MT1-MT4), 4 C10')
 
 prop('C11',
-     [MT.mt1, MT.mt2, MT.mt3, MT.mt5, R2.mt6, R2.mt7, R2.mt8, T.mt4, MI.lc1, PS.ps3, PD.pd1, R3.ix14, MO.ml2, R3.tk1],
+     [MT.mt1, MT.mt2, MT.mt3, MT.mt5, R2.mt6, R2.mt7, R2.mt8, T.mt4, MI.lc1, PS.ps3, PD.pd1, R3.ix14, MO.ml2, R3.tk1, PD.pd5, R4.nm1],
      'the decision table of replace_section equals the documented scheme incl. rotation points, '
      'operator words and punctuation (MT1); section flag / next-replacement threading and the '
      'final punctuation of simple / removed equations (MT2); all catalogue equation '
@@ -197,7 +198,7 @@ prop('C11',
      'DESIGN.md 3.8 (MT1-MT5), 4 C11')
 
 prop('C12',
-     [LS.ls1_ml, MO.ml2, R2.ml4, R2.lc2, MI.ml6, MI.lc1, ST.ex1, OK.ok4, R2.okv, R3.ml7, R3.ml8],
+     [LS.ls1_ml, MO.ml2, R2.ml4, R2.lc2, MI.ml6, MI.lc1, ST.ex1, OK.ok4, R2.okv, R3.ml7, R3.ml8, R4.acc1, R4.sh1],
      'text and map of every language section stay in lock step through sectioning, joining '
      'and placeholder insertion (LS1m)',
      'decides only the lock-step clause of C12 so far',
@@ -263,7 +264,7 @@ prop('C16',
      'DESIGN.md 3.4 (TH1, TH2), 3.2 (LS2), 4 C16')
 
 prop('C18',
-     [ST.ex1, ST.wl1, ST.ls2p, MI.dt1, MI.df1, R2.cm2, SC.sc5, R3.rs1],
+     [ST.ex1, ST.wl1, ST.ls2p, MI.dt1, MI.df1, R2.cm2, SC.sc5, R3.rs1, R4.exw],
      'init_extractions rewrites every macro and extracts the first mandatory argument, the main '
      'text is dropped, flows are appended once in order (EX1); the work list takes one name per '
      'iteration, records it exactly as tested after the done / skip test, and adds only names '
@@ -278,7 +279,7 @@ prop('C18',
      'DESIGN.md 3.8 (EX1, WL1), 4 C18')
 
 prop('C19',
-     [MI.uk, R2.uk5, SC.sc5, PS.ps1, R3.sp5, R3.mc1, R3.rs1],
+     [MI.uk, R2.uk5, SC.sc5, PS.ps1, R3.sp5, R3.mc1, R3.rs1, R4.um1, R4.sh1, R4.exw, R4.acc1],
      'recorded only when undeclared at the time of use, only in text mode, once, reset per '
      'document, printed one per line (UK); what is declared does not depend on earlier calls '
      '(PS1)',
@@ -290,7 +291,7 @@ prop('C19',
      'DESIGN.md 3.8 (UK1-UK4), 4 C19')
 
 prop('C20',
-     [RX.ck1, RX.ck4, RX.ck5, RX.ab4, OK.ok2, PS.ps1, R3.lc3, R3.ck6, R3.ck7],
+     [RX.ck1, RX.ck4, RX.ck5, RX.ab4, OK.ok2, PS.ps1, R3.lc3, R3.ck6, R3.ck7, R4.ck8, R4.ck10],
      'single-letter scan pattern has width 1 between word boundaries and letters only, accepted '
      'patterns are literal, the suppression test is beg <= position < end with the right '
      'strictness, offset and length come from one match (CK1); the equation-punctuation pattern '
